@@ -115,8 +115,20 @@ bool model_equiv(const Model &orig, const Model &got, const EquivOpts &o, std::s
   for (int j = 0; j < orig.n(); j++) {
     std::string nm = orig.cols[j].name;
     auto rn = o.col_renames.find(nm);
-    if (rn != o.col_renames.end() && !gcol.count(nm))
-      for (auto &cand : rn->second) if (gcol.count(cand)) { nm = cand; break; }
+    if (rn != o.col_renames.end() && !gcol.count(nm)) {
+      // the notices are keyed by the old name only (a row and a column may share it, and a repaired name may equal
+      // the name of another entry): take the candidate that carries this column's data, else the first that exists
+      std::string first;
+      bool chosen = false;
+      for (auto &cand : rn->second) {
+        auto ic = gcol.find(cand);
+        if (ic == gcol.end()) continue;
+        if (first.empty()) first = cand;
+        const Col &a = orig.cols[j], &b = got.cols[ic->second];
+        if (a.obj == b.obj && a.lo == b.lo && a.up == b.up && a.isint == b.isint) { nm = cand; chosen = true; break; }
+      }
+      if (!chosen && !first.empty()) nm = first;
+    }
     auto it = gcol.find(nm);
     if (it == gcol.end()) return W("column '" + orig.cols[j].name + "' (written as '" + nm + "') is missing");
     cmap[j] = it->second;
@@ -164,12 +176,21 @@ bool model_equiv(const Model &orig, const Model &got, const EquivOpts &o, std::s
     if (rn != o.row_renames.end()) {
       bool present = false;
       for (int k = 0; k < got.m(); k++) if (got.rows[k].name == nm) present = true;
-      if (!present)
+      if (!present) {
+        // prefer the candidate under which this very row is found (a candidate may also be the genuine name of
+        // another row, or the new name of the column that shared the old name)
+        std::string first;
+        bool chosen = false;
         for (auto &cand : rn->second) {
-          bool there = false;
-          for (int k = 0; k < got.m(); k++) if (!used[k] && got.rows[k].name == cand) there = true;
-          if (there) { nm = cand; break; }
+          for (int k = 0; k < got.m() && !chosen; k++) {
+            if (used[k] || got.rows[k].name != cand) continue;
+            if (first.empty()) first = cand;
+            if (row_matches(a, got.rows[k]) || (a.sense == 'R' && o.allow_range_split && same_coefs(a, got.rows[k]))) { nm = cand; chosen = true; }
+          }
+          if (chosen) break;
         }
+        if (!chosen && !first.empty()) nm = first;
+      }
     }
     int hit = -1;
     if (o.match_rows_by_name) {
